@@ -71,7 +71,7 @@ def peerTimeout : Int := 15000000000
 
 def step (σ : St) (op obs : List String) : St × List Msg :=
   match op, obs with
-  | ["round", _t, alerts, skews, acc, delays], _ =>
+  | "round" :: _t :: alerts :: skews :: acc :: delays :: lates, _ =>
     let (f, r) := parseAlerts alerts
     let sk := (skews.splitOn ",")
     let present : Bool := sk.all (fun x => x != "x")
@@ -86,7 +86,8 @@ def step (σ : St) (op obs : List String) : St × List Msg :=
       | e :: rest => rest.all (· = e)
     let healthy : Bool := present && offDiagOk && accs.all id && decide (spread ≤ σ.cfg.repeatI) && converged
     ({ σ with firing := f, resolved := r, acc := accs, healthy, roundSends := 0, roundSends1 := 0, inRound := true, pending := [], gcInst := none },
-      [.tag (if healthy then "round:healthy" else "round:faulty")] ++ (if σ.n > 1 then [.tag "round:multi"] else []))
+      [.tag (if healthy then "round:healthy" else "round:faulty")] ++ (if σ.n > 1 then [.tag "round:multi"] else [])
+        ++ (if lates.any (fun l => (l.splitOn ",").any (fun x => x ≠ "0")) then [.tag "round:late-tick"] else []))
   | ["gc", t, i], _ => ({ σ with inRound := false, gcInst := some (toNat! i, toInt! t) }, [])
   | ["crash", _t, i, keep], _ =>
     ({ σ with css := (List.range σ.k).map (fun k => AM.Cluster.step (cfgK σ k) (csK σ k) (.crash (toNat! i) (keep = "1"))), inRound := false, gcInst := none },
